@@ -14,7 +14,7 @@ CHECKS = {
          "Trusted: the 60-line reference analysis (oracle/refsort.rs). Error payloads are not compared, only kinds.",
          "small-scope exhaustive generation + property-based testing against a reference analysis", "2 C12"),
  "C13": ("exploration",
-         "Generated pairs of parser-producible rules (a random rule and a single-edit near miss, or independent pairs), built through Rule::new on shuffled lists or through render+parse, must share an identity exactly when target set, source set and command-line list are equal.",
+         "Generated pairs of parser-producible rules (a random rule and a single-edit near miss, independent pairs, or pairs in which a string moves across a section boundary together with a separator-like suffix), built through Rule::new on shuffled lists or through render+parse, must share an identity exactly when target set, source set and command-line list are equal.",
          "Modulo SHA-256 collisions. Strings obey the parser's invariants (non-empty, no newline/tab, not a lone ':').",
          "property-based testing: metamorphic near-miss pairs vs set/list equality oracle", "2 C13"),
  "C14": ("exploration",
